@@ -11,6 +11,7 @@
 // in units capsule / settings.
 use vstd::prelude::*;
 
+// verif: counter-overflow-undecided
 verus! {
 
 // assumed std contracts (vstd has none)
